@@ -39,6 +39,7 @@ type Engine struct {
 	copies      []copyRec
 	viewOrigins map[int]viewOrigin
 	initPkg     string
+	pendingWF   []string
 	cur         *FuncResult
 	logOff      int
 	cellCtr     int
@@ -53,6 +54,7 @@ type Engine struct {
 }
 
 type Options struct {
+	StreamModel bool // model reader contents as a stream (C14/C16); otherwise read buffers hold arbitrary bytes
 	Overlay   map[string][]byte
 	MaxPaths  int
 	MaxInline int
